@@ -416,3 +416,44 @@ mod tests {
         }
     }
 }
+
+#[cfg(feature = "verif")]
+impl<K, V> TxIndex<K, V>
+where
+    K: Key + Copy + std::fmt::Debug,
+    V: Value + Clone + std::fmt::Debug,
+{
+    /// Canonical (order independent) rendering of the whole index. Used by the verification harness.
+    pub fn verif_snapshot(&self) -> String {
+        fn digest(s: &str) -> u64 {
+            s.bytes().fold(0xcbf29ce484222325u64, |h, b| {
+                (h ^ b as u64).wrapping_mul(0x100000001b3)
+            })
+        }
+        let mut out = format!("tip={} size={} blocks=[", self.tip, self.size);
+        for b in self.blocks.iter() {
+            let mut ks: Vec<String> = self
+                .tx_in_block
+                .get(b)
+                .map(|ks| ks.iter().map(|k| format!("{k:?}")).collect())
+                .unwrap_or_else(|| vec!["<missing>".to_owned()]);
+            ks.sort();
+            out.push_str(&format!("{b}:{ks:?};"));
+        }
+        let mut index: Vec<String> = self
+            .index
+            .iter()
+            .map(|(k, v)| format!("{k:?}={:016x}", digest(&format!("{v:?}"))))
+            .collect();
+        index.sort();
+        let mut extra: Vec<String> = self
+            .tx_in_block
+            .keys()
+            .filter(|b| !self.blocks.contains(b))
+            .map(|b| b.to_string())
+            .collect();
+        extra.sort();
+        out.push_str(&format!("] index={index:?} dangling_blocks={extra:?}"));
+        out
+    }
+}
